@@ -1105,6 +1105,21 @@ def inventory(L, include_expansion=False):
     def rec(kind, key, ok, msg, bb, line):
         out.append({"kind": kind, "key": key, "ok": ok, "msg": msg, "bb": bb, "line": line})
 
+    # pre-pass: integer logarithms are monotone — bound their results from the argument's interval
+    for cs in fn.calls:
+        m = re.search(r"num::<impl (u8|u16|u32|u64|u128|usize)>::ilog10$", cs.callee or "")
+        if m and len(cs.dest) == 1 and len(cs.args) == 1:
+            x = L.lin_op(cs.args[0], (cs.bb, TERM))
+            if x is None:
+                continue
+            lo, hi = L.lb(x, (cs.bb, TERM)), L.ub(x, (cs.bb, TERM))
+            if hi == INF:
+                hi = INT_RANGE[m.group(1)][1]
+            if lo >= 1:
+                a = "_%d" % cs.dest[0]
+                L.atom_ty[a] = "u32"
+                L.extra_bounds[a] = (len(str(int(lo))) - 1, len(str(int(hi))) - 1)
+
     for s in A.panic_sites(fn, include_expansion=include_expansion):
         bb, kind, line = s["bb"], s["kind"], s["line"]
         if in_debug_assert(fn, bb) and not include_expansion:
@@ -1235,6 +1250,12 @@ def inventory(L, include_expansion=False):
                 ok = ok and o2
                 parts.append("%s<=len(%s) %s" % (L.render(hi), L.render(ln), "by " + w2 if o2 else "NOT implied; " + w2))
             rec("slice", "slice:[%s]of(%s)" % (desc, L.render(ln)), ok, "slice [%s] of length %s: %s" % (desc, L.render(ln), "; ".join(parts)), bb, line)
+            continue
+        if re.search(r"::ilog10$", nm):
+            x = L.lin_op(cs.args[0], S)
+            lo = L.lb(x, S) if x is not None else -INF
+            rec("ilog", "ilog10:%s" % (L.render(x) if x is not None else "?"), lo >= 1,
+                "ilog10(%s): argument >= %s (must be > 0)" % (L.render(x) if x is not None else "?", lo), bb, line)
             continue
         if re.search(r"::pow$", nm):
             m = TYPE_OF_IMPL.search(nm)
